@@ -159,6 +159,14 @@ def pair_continuation(ctx, i, spec, n, rng, case):
     if any(inf['near'] for inf in ana.info[:ana.N] if inf):
         ctx.count('excluded_near_threshold')
         return
+    if any(r_['type'] == 'startlim' for r_ in spec.get('rules', [])):
+        # StartLimitCurrent far beyond the no-load speed, or proposing rounding residue around zero: its root cancels
+        # catastrophically and ANY two roundings of the same state (a continuation re-derives its instants) lead to histories
+        # that differ by far more than 1e-9 -- ill-conditioned, not a matter of continuation (same exclusion as C07, appendix A10)
+        w0_ = GEN.qsi(spec['motor']['w0'])
+        if any(abs(w_) > 3 * w0_ for w_ in t1.els[0]['vars']['angular speed']) or any(0 < abs(D_) < 1e-9 for D_ in t1.pwm):
+            ctx.count('excluded_ill_conditioned_limit_current')
+            return
     ctx.count('pairs_continuation')
     ctx.count('evaluations')
     if unit_change:
